@@ -191,30 +191,54 @@ theorem jacRow_ok (V : List Var) : (e : Expr) → WF e → (row : List Expr) →
   | .bin op l r, hwf, row, h => by
     have hwl : WF l := by unfold WF at hwf; exact hwf.1
     have hwr : WF r := by unfold WF at hwf; exact hwf.2
-    unfold jacRow at h
+    -- the chain of cases of the regenerated `BinaryOp.jacobian_row`
+    simp only [jacRow, binJacRow] at h
     split at h
-    · exact (jacRow_ok V _ hwl row h).imp fun a b hab => by rw [hab, grad_add_const]
-    · exact (jacRow_ok V _ hwl row h).imp fun a b hab => by rw [hab, grad_sub_const]
-    · exact (jacRow_ok V _ hwr row h).imp fun a b hab => by rw [hab, grad_const_add]
-    · rename_i c
-      cases hr : jacRow V r with
-      | none => rw [hr] at h; cases h
-      | some row' =>
-        rw [hr] at h
-        simp only [Option.some.injEq] at h
-        subst h
-        exact forall₂_map_left ((jacRow_ok V _ hwr row' hr).imp fun a b hab => by
-          rw [denote_scaleLeft, hab, grad_const_mul])
-    · rename_i c _
-      cases hl : jacRow V l with
-      | none => rw [hl] at h; cases h
-      | some row' =>
-        rw [hl] at h
-        simp only [Option.some.injEq] at h
-        subst h
-        exact forall₂_map_left ((jacRow_ok V _ hwl row' hl).imp fun a b hab => by
-          rw [denote_scaleRight, hab, grad_mul_const])
-    · cases h
+    · -- f ± c
+      rename_i hc
+      simp only [Bool.and_eq_true, Bool.or_eq_true, beq_iff_eq] at hc
+      obtain ⟨hop, hcr⟩ := hc
+      cases r <;> simp [isConstE] at hcr
+      rename_i c
+      rcases hop with rfl | rfl
+      · exact (jacRow_ok V _ hwl row h).imp fun a b hab => by rw [hab, grad_add_const]
+      · exact (jacRow_ok V _ hwl row h).imp fun a b hab => by rw [hab, grad_sub_const]
+    · split at h
+      · -- c + f
+        rename_i _ hc
+        simp only [Bool.and_eq_true, beq_iff_eq] at hc
+        obtain ⟨rfl, hcl⟩ := hc
+        cases l <;> simp [isConstE] at hcl
+        exact (jacRow_ok V _ hwr row h).imp fun a b hab => by rw [hab, grad_const_add]
+      · split at h
+        · -- c * f
+          rename_i row' hrow
+          split at hrow
+          · rename_i hc
+            simp only [Bool.and_eq_true, beq_iff_eq] at hc
+            obtain ⟨rfl, hcl⟩ := hc
+            cases l <;> simp [isConstE] at hcl
+            rename_i c
+            simp only [Option.some.injEq] at h
+            subst h
+            exact forall₂_map_left ((jacRow_ok V _ hwr row' hrow).imp fun a b hab => by
+              rw [cstOf, denote_scaleLeft, hab, grad_const_mul])
+          · cases hrow
+        · split at h
+          · -- f * c
+            rename_i row' hrow
+            split at hrow
+            · rename_i hc
+              simp only [Bool.and_eq_true, beq_iff_eq] at hc
+              obtain ⟨rfl, hcr⟩ := hc
+              cases r <;> simp [isConstE] at hcr
+              rename_i c
+              simp only [Option.some.injEq] at h
+              subst h
+              exact forall₂_map_left ((jacRow_ok V _ hwl row' hrow).imp fun a b hab => by
+                rw [cstOf, denote_scaleRight, hab, grad_mul_const])
+            · cases hrow
+          · cases h
   | .vecSum v, _, row, h => by
     simp only [jacRow, Option.some.injEq] at h
     subst h
